@@ -141,6 +141,57 @@ prop(
 )
 
 
+_ANALOG_NOTE = ("Trusted: the exact rational (math/big) reference of the shaping chain in analog.go (normalise, centre shift, deadzone rescale, flip), "
+                "written from the README; the device runner; configurations go through the real ParseData. The device's assumption that an axis "
+                "starts at its physical rest (first event repeating that position is not transmitted) is accepted, nothing is asserted about a "
+                "suppressed event.")
+
+prop(
+    "C06", "exploration",
+    "One axis per case: range in {0..255, -128..127, -127..127, -512..511, 0..1023, -32768..32767, 0..65535, hat -1..1}; uni-/bidirectional CC "
+    "or pitch bend; deadzone from {0,.002,.05,.1,.25,.49,.5,.9} or k/1000, given as specific entry, per-handler default or absent; flip; "
+    "deadzone_at_center (min==0 only); channel offsets; default channel. Positions: EVERY raw value ascending (and descending) for ranges up to "
+    "1024 values, otherwise both ends, centre, deadzone edges (each +-3) plus 32-256 sampled values ascending; then 0-40 arbitrary (previous, new) "
+    "pairs. Oracle per event on the receiver's last value: within one step of the exact rational value (pitch bend: of the map anchored at "
+    "0/8192/16383 or of the linear map), monotonic in raw, physical end stops exactly 0/127/16383, inside the deadzone exactly the rest value "
+    "(0, 63|64, 8192), only the axis' own controllers addressed, something transmitted once the position differs from rest. "
+    "Non-trivial = the case contains an end stop, a position inside/at the deadzone, or a pair crossing the deadzone edge.",
+    [dict(test="TestC06", shards=16, checks_quick=600, checks_thorough=20000)],
+    level_text="Generated-input search; per generated configuration the sweep over a <=10-bit axis is exhaustive, 16-bit axes are sampled with edges.",
+    level_note=_ANALOG_NOTE,
+    technique="property-based testing (rapid) with exhaustive per-axis sweeps vs exact rational reference transfer function",
+)
+
+prop(
+    "C07", "exploration",
+    "1-3 bidirectional CC axes (pairwise distinct controller numbers, offsets, signed / centred unsigned / plain unsigned / hat ranges, flip, "
+    "deadzones) and a cc_learning key; 1-40 events: positions drawn from end stop of a side, exact centre, +-0..3 around centre, around half "
+    "travel, random fraction; the side flips with p=0.5 per event; learning toggled with p=0.1. Oracle on the receiver's controller values: after "
+    "EVERY event at most one controller of each axis is non-zero; after every transmitting event the non-zero one is on the side of the exact "
+    "shaped position (both zero at rest); only the axis' controllers are addressed; while learning is held a deflection not beyond half travel "
+    "transmits nothing. Non-trivial = a direct jump between opposite sides, or a transmission while learning.",
+    [dict(test="TestC07", shards=16, checks_quick=2000, checks_thorough=60000)],
+    level_text="Generated-history search against receiver-side invariants.",
+    level_note=_ANALOG_NOTE,
+    technique="stateful property-based testing (rapid) with receiver-side invariants + exact side oracle",
+)
+
+prop(
+    "C08", "exploration",
+    "1-2 key-emulating axes through ParseData ({type=key, note[, note_negative != note]}, hat / signed stick / unsigned stick with or without "
+    "deadzone_at_center, flip, deadzone), octave/semitone/channel keys; 1-40 events: positions at 0, 1, 0.5 of the range, within 3/1000 of the "
+    "49%/50% thresholds, random; action taps interleaved. Oracle: two-direction state machine at event granularity (>= half travel: on once with "
+    "note+12*octave+semitone on the current channel when configured and in range; < 49%: off; band: unchanged; out-of-range at crossing: a later "
+    "Note On of the same excursion is permitted, not required), every Note Off releases exactly the Note On that was sent, never both "
+    "directions sounding, a direction without a note never sounds, velocity 1-127. Positions within 1e-9 of a threshold are resynchronised from "
+    "the wire. Non-trivial = a direction switched on; distinct by case hash.",
+    [dict(test="TestC08", shards=16, checks_quick=2000, checks_thorough=60000)],
+    level_text="Generated-history search against a reference state machine of the two directions.",
+    level_note=_ANALOG_NOTE,
+    technique="model-based stateful property-based testing (rapid) vs two-direction reference state machine",
+)
+
+
 # Properties not (yet) claimed. Kept current by hand; every id of properties.jsonl is either in PROPS or here.
 _PENDING = "check not built yet in this round; planned as property-based test per DESIGN.md"
 NOT_APPLICABLE = [{"property_id": "C%02d" % i, "reason": _PENDING} for i in range(1, 21) if "C%02d" % i not in PROPS]
